@@ -130,24 +130,35 @@ def wsCloseMark : String := "ws close"
 
 /-- The framing check of `reader.Token` (`r.ws && t.Name.Space == wsNamespace && !r.negotiating`,
 the first thing it does with a start tag): on a session that uses the WebSocket subprotocol
-(`ws = true`) a start tag in the framing namespace named `close` is the peer's closing element
-(`io.EOF`), any other one (`<open/>` = a stream restart) is `ErrUnexpectedRestart`, at any depth,
-with the depth counted up like for every start tag.  The model represents that check as a
-relabelling of the session's input in front of `verdict`: `close` becomes a stream-namespace start
-tag named `wsCloseMark`, every other framing start tag becomes `<stream:stream>` (for which
+(`ws = true`) a *top-level* start tag in the framing namespace named `close` is the peer's closing
+element (`io.EOF`); any other one — `<open/>` = a stream restart, and also a `<close/>` *inside*
+another element — is `ErrUnexpectedRestart`, with the depth counted up like for every start tag.
+The model represents that check as a relabelling of the session's input in front of `verdict`
+(`d` = number of elements open at this token): the top-level `close` becomes a stream-namespace
+start tag named `wsCloseMark`, every other framing start tag becomes `<stream:stream>` (for which
 `verdict` answers exactly `ErrUnexpectedRestart` with the depth counted up).  End tags are not
 touched (the reader only tests start tags).  With `ws = false` nothing is relabelled: framing
 elements are ordinary content on a TCP stream. -/
-def wsTok (ws : Bool) : Tok → Tok
+def wsTok (ws : Bool) (d : Nat) : Tok → Tok
   | .start n as =>
     if ws && n.space == nsFraming then
-      (if n.loc == "close" then .start ⟨nsStream, wsCloseMark⟩ as
+      (if n.loc == "close" && d == 0 then .start ⟨nsStream, wsCloseMark⟩ as
        else .start ⟨nsStream, "stream"⟩ as)
     else .start n as
   | t => t
 
-/-- the input of a session as its stream reader classifies it (see `wsTok`) -/
-def wsInput (ws : Bool) (inp : List Tok) : List Tok := inp.map (wsTok ws)
+/-- nesting after a token, as `reader.Token` counts it (`depth++` / `depth--`) -/
+def depthStep (d : Nat) : Tok → Nat
+  | .start .. => d + 1
+  | .stop _ => d - 1
+  | _ => d
+
+/-- the input of a session as its stream reader classifies it (see `wsTok`), from nesting `d` on -/
+def wsInputD (ws : Bool) : Nat → List Tok → List Tok
+  | _, [] => []
+  | d, t :: ts => wsTok ws d t :: wsInputD ws (depthStep d t) ts
+
+def wsInput (ws : Bool) (inp : List Tok) : List Tok := wsInputD ws 0 inp
 
 /-- `reader.Token` (internal/stream/reader.go) on one token at nesting `depth`, for
 `negotiating = false`: new depth and verdict.  The WebSocket flag is handled by `wsInput`.
@@ -807,6 +818,11 @@ def serveC (cfg : Cfg) (closed : Bool) (inp : List Tok) (progs : List Prog) : Ou
 def serveCD (cfg : Cfg) (closed : Bool) (pre : List Nat) (inp : List Tok) (progs : List Prog) : Out :=
   serveFC cfg (inp.length + 1) (if closed then .closed else .opn) (expiredAfter pre false) (RS.init inp) progs
 
+/-- `serveCD` for any state of the output when `Serve` starts (`broken`: an earlier `Send` was
+abandoned inside an element) -/
+def serveCS (cfg : Cfg) (st : OutSt) (pre : List Nat) (inp : List Tok) (progs : List Prog) : Out :=
+  serveFC cfg (inp.length + 1) st (expiredAfter pre false) (RS.init inp) progs
+
 /-! ### a connection that refuses writes
 
 The encoder is buffered: what a handler (or the automatic reply) wrote reaches the connection in
@@ -856,9 +872,13 @@ def factTok : String → Option (Tok × List Tok)
   | "stream-other" => some (.start ⟨nsStream, "features"⟩ [], [.stop ⟨nsStream, "features"⟩])
   | "plain" => some (.start ⟨"urn:e", "e"⟩ [], [.stop ⟨"urn:e", "e"⟩])
   | "close" => some (.stop ⟨nsStream, "stream"⟩, [])
-  -- elements of the WebSocket framing namespace are ordinary content on a TCP stream (ws = false)
+  -- elements of the WebSocket framing namespace: ordinary content on a TCP stream, stream level
+  -- on a session that uses the WebSocket subprotocol (`factVerdictW true`)
   | "framing-open" => some (.start ⟨nsFraming, "open"⟩ [], [.stop ⟨nsFraming, "open"⟩])
   | "framing-close" => some (.start ⟨nsFraming, "close"⟩ [], [.stop ⟨nsFraming, "close"⟩])
+  | "framing-other" => some (.start ⟨nsFraming, "stream"⟩ [], [.stop ⟨nsFraming, "stream"⟩])
+  | "framing-close-attrs" => some (.start ⟨nsFraming, "close"⟩ [attr "see-other-uri" "wss://o.example/"], [.stop ⟨nsFraming, "close"⟩])
+  | "close-other-ns" => some (.start ⟨"urn:other", "close"⟩ [], [.stop ⟨"urn:other", "close"⟩])
   -- received stream errors with application-specific conditions (children in another namespace)
   | "se-app-after" => some (.start ⟨nsStream, "error"⟩ [],
       [.start ⟨nsStreams, "conflict"⟩ [], .stop ⟨nsStreams, "conflict"⟩,
@@ -894,7 +914,7 @@ def factVerdict (kind : String) (depth : Nat) : Option String :=
 
 /-- the same on a session with the WebSocket flag `ws` -/
 def factVerdictW (ws : Bool) (kind : String) (depth : Nat) : Option String :=
-  (factTok kind).map fun p => (verdict depth (wsTok ws p.1) (wsInput ws p.2)).2.name
+  (factTok kind).map fun p => (verdict depth (wsTok ws depth p.1) (wsInputD ws (depthStep depth p.1) p.2)).2.name
 
 /-! ### shapes of the detector probe (`Generated/C07.lean`, harness/c07 `ProbeToks`) -/
 
